@@ -117,6 +117,16 @@ func (w *histWorld) drawRun(r *Rng, cfg HistConfig) *RunOp {
 		if run.Args.Globals == nil {
 			run.Args.Globals = drawGlobals(r, w.names)
 		}
+		if r.P(0.4) && len(gens) > 2 {
+			// ... and with another set of generators (a subset, in another order)
+			fg := []proto.GenScript{gens[0]}
+			for _, k := range r.Perm(len(gens) - 1) {
+				if r.P(0.6) || len(fg) == 1 {
+					fg = append(fg, gens[1+k])
+				}
+			}
+			run.FirstGens = fg
+		}
 		return run
 	}
 	if r.P(cfg.PMute) {
@@ -141,6 +151,7 @@ func (w *histWorld) drawRun(r *Rng, cfg HistConfig) *RunOp {
 		}
 	}
 	run := &RunOp{Args: args, Gens: gens, Sched: drawSched(r), Fresh: r.P(0.5)}
+	run.SecondContext = r.P(cfg.PWarm)
 	if r.P(cfg.PCwd) {
 		// started inside a package directory (a go:generate line, "cd cmd/app && gengo ...")
 		var dirs []string
